@@ -466,3 +466,57 @@ mutant('C12', 'reset-skips-motor', PT, "        self.__time = []\n\n        for 
 mutant('C12', 'reset-forgets-load-torque', PT, "            element.load_torque = element.time_variables['load torque'][0]\n", "", 'C12.reset')
 benign('C12', 'reset-restores-reordered', PT, "            element.torque = element.time_variables['torque'][0]\n            element.driving_torque = element.time_variables[\n                'driving torque'\n            ][0]\n", "            element.driving_torque = element.time_variables[\n                'driving torque'\n            ][0]\n            element.torque = element.time_variables['torque'][0]\n")
 benign('C12', 'reset-clear-via-values', PT, "            for variable in element.time_variables.keys():\n                element.time_variables[variable] = []", "            for samples in element.time_variables.values():\n                samples.clear()")
+
+# ------------------------------------------------------------------------------------------ C13
+mutant('C13', 'lock-ignores-zero-pwm', SV, "            motor.pwm == 0 or\n", "", 'C13.lock-table')
+mutant('C13', 'lock-on-zero-speed', SV, "(motor.pwm > 0 and motor.angular_speed < NULL_ANGULAR_SPEED)", "(motor.pwm > 0 and motor.angular_speed <= NULL_ANGULAR_SPEED)", 'C13.lock-table')
+mutant('C13', 'lock-sign-flipped', SV, "(motor.pwm < 0 and motor.angular_speed > NULL_ANGULAR_SPEED)", "(motor.pwm < 0 and motor.angular_speed < NULL_ANGULAR_SPEED)", 'C13.lock-table')
+mutant('C13', 'lock-without-self-locking', SV, "        if self.__powertrain.self_locking and (", "        if (", 'C13')
+mutant('C13', 'unlock-wrong-direction', SV, "(motor.torque < NULL_TORQUE and motor.pwm < 0)", "(motor.torque < NULL_TORQUE and motor.pwm > 0)", 'C13.lock-table')
+mutant('C13', 'unlock-on-zero-torque', SV, "            if (motor.torque > NULL_TORQUE and motor.pwm > 0) or \\", "            if (motor.torque >= NULL_TORQUE and motor.pwm > 0) or \\", 'C13.lock-table')
+mutant('C13', 'unlock-uses-driving-torque', SV, "            if (motor.torque > NULL_TORQUE and motor.pwm > 0) or \\", "            if (motor.driving_torque > NULL_TORQUE and motor.pwm > 0) or \\", 'C13.lock-table')
+mutant('C13', 'lock-does-not-return', SV, "            self.__powertrain_is_locked = True\n            return\n", "            self.__powertrain_is_locked = True\n", 'C13.lock-table')
+mutant('C13', 'clamp-skips-motor', SV, "        for element in self.__powertrain.elements:\n            element.angular_speed = NULL_ANGULAR_SPEED", "        for element in self.__powertrain.elements[1:]:\n            element.angular_speed = NULL_ANGULAR_SPEED", 'C13.clamp')
+mutant('C13', 'clamp-after-load', SV, "        if self.__powertrain_is_locked:\n            self._compute_locked_powertrain_angular_speed_and_acceleration()\n        self._compute_load_torque()\n", "        self._compute_load_torque()\n        if self.__powertrain_is_locked:\n            self._compute_locked_powertrain_angular_speed_and_acceleration()\n", 'C13.clamp')
+mutant('C13', 'acceleration-while-locked', SV, "        if not self.__powertrain_is_locked:\n            self._compute_angular_acceleration()", "        self._compute_angular_acceleration()", 'C13.clamp')
+mutant('C13', 'clamp-when-unlocked', SV, "        if self.__powertrain_is_locked:\n            self._compute_locked_powertrain_angular_speed_and_acceleration()", "        if not self.__powertrain_is_locked:\n            self._compute_locked_powertrain_angular_speed_and_acceleration()", 'C13.clamp')
+mutant('C13', 'clamp-before-propagation', SV, "        self._compute_angular_position_and_speed()\n        self._check_powertrain_is_locked()\n        if self.__powertrain_is_locked:\n            self._compute_locked_powertrain_angular_speed_and_acceleration()\n", "        self._check_powertrain_is_locked()\n        if self.__powertrain_is_locked:\n            self._compute_locked_powertrain_angular_speed_and_acceleration()\n        self._compute_angular_position_and_speed()\n", 'C13.clamp')
+benign('C13', 'lock-condition-reordered', SV, "(motor.pwm > 0 and motor.angular_speed < NULL_ANGULAR_SPEED) or\n            (motor.pwm < 0 and motor.angular_speed > NULL_ANGULAR_SPEED)", "(motor.pwm < 0 and motor.angular_speed > NULL_ANGULAR_SPEED) or\n            (motor.angular_speed < NULL_ANGULAR_SPEED and motor.pwm > 0)")
+benign('C13', 'unlock-flipped-comparison', SV, "            if (motor.torque > NULL_TORQUE and motor.pwm > 0) or \\", "            if (NULL_TORQUE < motor.torque and 0 < motor.pwm) or \\")
+
+PC = 'gearpy/motor_control/pwm_control.py'
+# ------------------------------------------------------------------------------------------ C14
+mutant('C14', 'conflict-needs-three', PC, "        if applied_rules >= 2:", "        if applied_rules > 2:", 'C14.shape')
+mutant('C14', 'default-zero', PC, "            pwm = 1\n", "            pwm = 0\n", 'C14.shape')
+mutant('C14', 'no-saturation', PC, "self._saturate_pwm(pwm_value)", "pwm_value", 'C14')
+mutant('C14', 'saturation-lower-bound', PC, "return min(max(pwm, -1), 1)", "return min(max(pwm, 0), 1)", 'C14.clip')
+mutant('C14', 'saturation-swapped', PC, "return min(max(pwm, -1), 1)", "return max(min(pwm, -1), 1)", 'C14.clip')
+mutant('C14', 'assigned-to-last-element', PC, "        self.__powertrain.elements[0].pwm = pwm", "        self.__powertrain.elements[-1].pwm = pwm", 'C14.shape')
+mutant('C14', 'count-by-truthiness', PC, "[pwm_value is not None for pwm_value in pwm_values]", "[bool(pwm_value) for pwm_value in pwm_values]", 'C14')
+mutant('C14', 'conflict-warns-only', PC, """            raise ValueError(
+                "At least two rules are simultaneously applicable. Check PWM "
+                "rules conditions."
+            )""", """            pwm = 1""", 'C14.shape')
+mutant('C14', 'control-after-motor-law', SV, "        self._compute_motor_control(motor_control=motor_control)\n        self._compute_driving_torque()\n", "        self._compute_driving_torque()\n        self._compute_motor_control(motor_control=motor_control)\n", 'C14.once')
+mutant('C14', 'control-skipped-while-locked', SV, "        self._compute_motor_control(motor_control=motor_control)\n", "        if not self.__powertrain_is_locked:\n            self._compute_motor_control(motor_control=motor_control)\n", 'C14.once')
+mutant('C14', 'control-twice', SV, "        self._compute_motor_control(motor_control=motor_control)\n", "        self._compute_motor_control(motor_control=motor_control)\n        self._compute_motor_control(motor_control=motor_control)\n", 'C14.once')
+mutant('C14', 'control-after-record', SV, PIPE, PIPE.replace("        self._compute_motor_control(motor_control=motor_control)\n", "") + "        self._compute_motor_control(motor_control=motor_control)\n", 'C14.once')
+mutant('C14', 'pwm-setter-and', DC, "if (pwm > 1) or (pwm < -1):", "if (pwm > 1) and (pwm < -1):", 'C14.range')
+mutant('C14', 'conflict-swallowed', SV, "        if motor_control is not None:\n            motor_control.apply_rules()", "        if motor_control is not None:\n            try:\n                motor_control.apply_rules()\n            except ValueError:\n                pass", 'C14')
+benign('C14', 'count-with-len', PC, "        applied_rules = sum(\n            [pwm_value is not None for pwm_value in pwm_values]\n        )", "        applied_rules = len(\n            [pwm_value for pwm_value in pwm_values if pwm_value is not None]\n        )")
+benign('C14', 'saturation-rewritten', PC, "return min(max(pwm, -1), 1)", "return max(-1, min(1, pwm))")
+mutant('C13', 'flag-cleared-every-run', SV, "        self._compute_powertrain_inertia()\n        if self.__powertrain.time:", "        self._compute_powertrain_inertia()\n        self.__powertrain_is_locked = False\n        if self.__powertrain.time:", 'C13.only-if')
+mutant('C13', 'self-locking-last-worm-wins', PT, "                if element.self_locking:\n                    self.__self_locking = True", "                self.__self_locking = bool(element.self_locking)", 'C13.flag-source')
+
+# ------------------------------------------------------------------------------------------ C20
+mutant('C20', 'walk-stops-at-inconsistent-backlink', PT, "            elements.append(elements[-1].drives)\n", "            if elements[-1].drives.driven_by is not elements[-1]:\n                break\n            elements.append(elements[-1].drives)\n", 'C20.walk')
+mutant('C20', 'walk-skips-one', PT, "            elements.append(elements[-1].drives)\n", "            elements.append(elements[-1].drives.drives or elements[-1].drives)\n", 'C20.walk')
+mutant('C20', 'elements-reversed', PT, "        self.__elements = tuple(elements)", "        self.__elements = tuple(reversed(elements))", 'C20.walk')
+mutant('C20', 'elements-stored-as-list', PT, "        self.__elements = tuple(elements)", "        self.__elements = elements", 'C20.walk')
+mutant('C20', 'unconnected-motor-accepted', PT, "        if motor.drives is None:", "        if False:", 'C20.rejects')
+mutant('C20', 'duplicates-need-three', PT, "            if count > 1:", "            if count > 2:", 'C20.rejects')
+mutant('C20', 'self-locking-last-worm-wins', PT, "                if element.self_locking:\n                    self.__self_locking = True", "                self.__self_locking = bool(element.self_locking)", 'C20.locking')
+mutant('C20', 'self-locking-scan-skips-first-gear', PT, "        for element in self.elements:\n            if isinstance(element, WormGear):", "        for element in self.elements[2:]:\n            if isinstance(element, WormGear):", 'C20.locking')
+mutant('C20', 'self-locking-any-gear', PT, "            if isinstance(element, WormGear):\n                if element.self_locking:", "            if hasattr(element, 'helix_angle'):\n                if True:", 'C20.locking')
+mutant('C20', 'self-locking-live-property', PT, "        return self.__self_locking", "        return any(isinstance(e, WormGear) and e.self_locking for e in self.__elements)", 'C20.frozen')
+mutant('C20', 'elements-setter-added', PT, "    @property\n    def time(self) -> list[Time]:", "    @elements.setter\n    def elements(self, elements):\n        self.__elements = tuple(elements)\n\n    @property\n    def time(self) -> list[Time]:", 'C20.frozen')
